@@ -410,7 +410,8 @@ def run(ck: Checker) -> None:
     ck.guard("R-REG-IDENT", lambda: r_reg_ident(ck))
     ck.guard("R-REG-FRESH", lambda: r_reg_fresh(ck))
     ck.guard("R-DESER-ID", lambda: r_deser_id(ck))
-    from .c03 import r_reg_pair
+    from .c03 import r_reg_pair, r_reg_who
+    ck.guard("R-REG-OWN", lambda: r_reg_who(ck))  # construction does not change the registry membership of nodes that existed before
     ck.guard("R-REG-PAIR", lambda: r_reg_pair(ck))  # a failed replace leaves the receiver registered
     if ck.tier == "thorough":
         ck.explanation += (" Thorough tier: mypy (the repository's own dev dependency, used as a library) infers the type of every write receiver "
